@@ -62,7 +62,7 @@ def call_tree(ctx, pid, ints=None, floor_note=True):
                 continue
             rn = "q__" + q[len(m.name) + 1:].replace(".", "__").replace("<", "").replace(">", "")
             if rn not in names:
-                ctx.note("not judged (added since the transcription): %s" % q)
+                _judge_new_function(ctx, pid, f, q, rel, rels, ints)
                 continue
             seen.add(rn)
             key = (q, "modref")
@@ -88,6 +88,52 @@ def call_tree(ctx, pid, ints=None, floor_note=True):
             ctx.undecided("fn-gone:%s" % rn, "%s:1" % rel, "%s of %s is no longer there under that name (removed, renamed or moved): no verdict on it" % (rn[3:].replace("__", "."), rel))
     if n_mod == 0:
         raise AnalysisError("no transcribed anchor module of %s found" % pid)
+
+
+def _judge_new_function(ctx, pid, f, q, rel, rels, ints):
+    """a function added since the review is read inside its callers (sa/expand.py) -- except when it takes the place of a
+    reviewed method of the same name (an override in a subclass or mix-in): then it is compared with the method it
+    replaces for the objects of its class"""
+    name = getattr(f.node, "name", "")
+    is_method = f.cls is not None or (f.parent is not None and "." in q[len(f.module.name) + 1:] and f.node.args.args and f.node.args.args[0].arg in ("self", "cls"))
+    if not is_method or (name.startswith("__") and name.endswith("__")):
+        ctx.note("not judged on its own (added since the transcription): %s" % q)
+        return
+    cands = []
+    for rel2 in rels:
+        try:
+            m2 = ctx.p.module(rel2)
+        except AnalysisError:
+            continue
+        tree2 = _tree(m2.name)
+        if tree2 is None:
+            continue
+        for n in tree2.body:
+            if isinstance(n, ast.FunctionDef) and n.name.endswith("__" + name) and n.name.count("__") >= 2:
+                cands.append((m2, tree2, n.name))
+    if not cands:
+        ctx.note("not judged on its own (added since the transcription): %s" % q)
+        return
+    where = "%s:%d" % (rel, f.node.lineno)
+    results = []
+    for m2, tree2, rn2 in cands:
+        try:
+            status, details, s_ref, _ = sym.reference_status(ctx, f, tree2, rn2, ints)
+        except Exception:
+            status, details = "unrecognised", []
+        results.append((status, rn2, details))
+        if status == "same":
+            ctx.ok("override-same:%s" % q, nontrivial=True)
+            return
+    decisive = [r for r in results if r[0] == "differs"]
+    if decisive and len(cands) == 1:
+        st, rn2, details = decisive[0]
+        for d in details[:2]:
+            ctx.bad("override:%s:%s" % (q.split(".", 1)[-1], d[1]), where, "%s (added since the review) replaces %s for its class and computes `%s` where that method computes `%s`"
+                    % (q, rn2[3:].replace("__", "."), (d[3] or "")[:240], (d[2] or "")[:240]))
+        return
+    ctx.undecided("override:%s" % q, where, "%s was added since the review and has the name of the reviewed method(s) %s: for objects of its class it replaces them, and it is not the same function; no verdict"
+                  % (q, ", ".join(r[1][3:].replace("__", ".") for r in results[:3])))
 
 
 def transcribed_count(pid):
